@@ -25,6 +25,8 @@ _PURE = {
     'left_shift', 'right_shift', 'bitwise_and', 'bitwise_or', 'bitwise_xor', 'packbits', 'unpackbits', 'power',
     'uint8', 'uint16', 'uint32', 'uint64', 'int8', 'int16', 'int32', 'int64', 'uint', 'int_', 'float64', 'bool_',
     'flatnonzero', 'searchsorted', 'multiply', 'subtract', 'divide', 'floor_divide', 'remainder', 'sign', 'square',
+    'ascontiguousarray', 'asfortranarray', 'asanyarray', 'atleast_3d', 'column_stack', 'row_stack', 'dstack', 'take',
+    'compress', 'delete', 'insert', 'flipud', 'fliplr', 'triu', 'tril', 'identity', 'array_split', 'cumprod', 'nansum',
     'log', 'exp', 'sqrt', 'log2', 'log10', 'log1p', 'vdot', 'inner', 'matmul', 'tensordot', 'einsum', 'trace', 'count_nonzero', 'intersect1d', 'in1d', 'isin', 'bincount',
     'atleast_1d', 'select', 'choose', 'clip', 'logical_and', 'not_equal', 'equal', 'greater', 'less',
 }
@@ -88,6 +90,16 @@ def entry_array(shape, f) -> np.ndarray:
 def call_numpy(func, args: list, kwargs: dict) -> Any:
     """Perform a whitelisted pure numpy function on host/concrete arguments."""
     name = np_name(func)
+    if name and name.endswith('.at') and name.count('.') == 1 and hasattr(np, name.split('.')[0]):
+        # ufunc.at(a, indices, b): unbuffered in-place operation, performed for real on the tracked array
+        uf = getattr(np, name.split('.')[0])
+        if args and isinstance(args[0], np.ndarray) and not any(a is TOP for a in args[1:]) and not kwargs:
+            try:
+                uf.at(args[0], *[to_host_index(a) for a in args[1:]])
+            except Exception as e:          # noqa
+                raise AnalysisError('engine', f'numpy.{name}', f'in-place ufunc call failed in the model: {e!r}')
+            return None
+        raise AnalysisError('engine', f'numpy.{name}', 'in-place ufunc call with operands the analysis does not track')
     if not name or name not in _PURE:
         return NOT_HANDLED
 
